@@ -1852,4 +1852,29 @@ example : ∃ rp rt : LoadRes, load {} { data := wfImage } false = .ok rp ∧
   translated_eq_plain wfImage contImage contTable {} { trans := contTable } .str .str false true rfl rfl
     (by decide +kernel) (by decide +kernel)
 
+
+/-! ### a limit of lazy = eager: translation table + truncated container (candidate finding)
+
+With a non-empty table `stream_size = SIZE_MAX`, so no bound protects the eager data read; when the
+container is too short the read comes up short, `setstate(earlier)` keeps the new failbit, and every
+*later* section header is unreadable in the eager load — the lazy load reads them all.  Both loads
+return true.  (`lazy_eq_eager` therefore needs `o.trans = []`; `translated_eq_plain` needs
+`Represents`.)  The same transcript was obtained from the real code with harness/load.cpp. -/
+
+/-- C02's example image with `e_phnum = 0`, cut into `[108,228)` and `[0,108)`, the second piece
+    truncated to 86 bytes (the `.text` data at 84..88 is incomplete) -/
+def truncContainer : Bytes :=
+  [0, 0, 0, 0, 0, 0, 0, 0, 0, 0, 0, 0, 0, 0, 0, 0, 0, 0, 0, 0, 0, 0, 0, 0, 0, 0, 0, 0, 0, 0, 0, 0, 0, 0, 0, 0, 0, 0, 0, 0, 1, 0, 0, 0, 1, 0, 0, 0, 6, 0, 0, 0, 0, 16, 0, 0, 84, 0, 0, 0, 4, 0, 0, 0, 0, 0, 0, 0, 0, 0, 0, 0, 4, 0, 0, 0, 0, 0, 0, 0, 7, 0, 0, 0, 3, 0, 0, 0, 0, 0, 0, 0, 0, 0, 0, 0, 88, 0, 0, 0, 17, 0, 0, 0, 0, 0, 0, 0, 0, 0, 0, 0, 1, 0, 0, 0, 0, 0, 0, 0, 127, 69, 76, 70, 1, 1, 1, 0, 0, 0, 0, 0, 0, 0, 0, 0, 2, 0, 3, 0, 1, 0, 0, 0, 0, 16, 0, 0, 52, 0, 0, 0, 108, 0, 0, 0, 0, 0, 0, 0, 52, 0, 32, 0, 0, 0, 40, 0, 3, 0, 2, 0, 1, 0, 0, 0, 84, 0, 0, 0, 0, 16, 0, 0, 0, 16, 0, 0, 4, 0, 0, 0, 4, 0, 0, 0, 5, 0, 0, 0, 4, 0, 0, 0, 1, 2]
+def truncTable : List Trans := [{ start := 0, size := 108, mappedTo := 120 }, { start := 108, size := 120, mappedTo := 0 }]
+
+def secTypes (r : M LoadRes) : Option (Bool × List Nat) :=
+  match r with
+  | .ok r => some (r.ok, r.obj.secs.map (·.stype.toNat))
+  | .error _ => none
+
+theorem lazy_eager_translated_truncated_witness :
+    secTypes (load { trans := truncTable } { data := truncContainer } false) = some (true, [0, 1, 0]) ∧
+    secTypes (load { trans := truncTable } { data := truncContainer } true) = some (true, [0, 1, 3]) := by
+  decide +kernel
+
 end ElfioVerif.C15
